@@ -19,7 +19,7 @@
 From Coq Require Import List NArith Bool Arith.
 From SV Require Import model.Graph model.GraphInv.
 From SV Require Import lib.Bytes lib.SqlExpr gen.GenSched model.Sched proofs.SchedProofs proofs.SchedPrims
-  proofs.SchedSeq proofs.SchedTermination model.SchedDefer proofs.SchedDeferProofs.
+  proofs.SchedSeq proofs.SchedTermination proofs.SchedSkel model.SchedDefer proofs.SchedDeferProofs.
 From SV Require Import model.SchedGraph proofs.SchedGraphCpl proofs.SchedGraphBelow
   proofs.SchedGraphSim proofs.SchedGraphErase proofs.SchedGraphAcyclic proofs.SchedGraphMachine proofs.SchedGraphRefl.
 Import ListNotations.
@@ -247,10 +247,50 @@ Theorem C10_deferred_is_justified_refuted_without_repair :
     ~ DeferInv (drun u c evs g).
 Proof. exact unrepaired_shapes_refuted. Qed.
 
+(* ---- D39-refine: the trigger wakes only the consumers that have nothing left to wait for ----
+   dstepR u r c: r = the trigger step_node_undefer_reattached carries the guard AND NOT EXISTS (an unusable dynamic
+   input of the step) -- the subquery it shares with Step.has_unusable_dynamic_input (generated: trg_undefer_strict). *)
+
+(* the invariant is kept by ALL histories of the refined shape as well (C10_deferred_is_justified_repo covers
+   whichever of the two the repository has) ... *)
+Theorem C10_deferred_is_justified_with_refined_trigger :
+  forall evs g, DeferInv g -> DeferInv (drunR true true true evs g).
+Proof. exact (repaired_history_keeps_invariant_gen true). Qed.
+
+(* ... and now its converse holds at a re-attachment: the flag of a deferred step that still has an unusable
+   dynamic input afterwards is NOT cleared (the step is woken by the state change that makes its last input
+   usable, Workflow.mark_step_pending) *)
+Theorem C10_reattachment_keeps_waiting_steps_deferred :
+  forall c g ks t, In t (sks g) -> q_deferred t = true ->
+    let gR := dstepR true true c g (DSetDetached ks false) in
+    unusable_dyn gR (q_key t) = true ->
+    exists t', In t' (sks gR) /\ q_key t' = q_key t /\ q_deferred t' = true /\ q_state t' = q_state t.
+Proof. exact refined_reattach_keeps_waiting. Qed.
+
+(* hence "the step is deferred" (mark_completed with wants_defer) and "a declaration re-attaches nodes" commute on
+   the deferred flag of the step, from ANY snapshot, whatever is re-attached ... *)
+Theorem C10_defer_and_reattachment_commute_on_the_deferred_flag :
+  forall c g k within ks sA sB, WF g ->
+    In sA (g_steps (dstepR true true c (dstepR true true c g (DDefer k within)) (DSetDetached ks false))) ->
+    In sB (g_steps (dstepR true true c (dstepR true true c g (DSetDetached ks false)) (DDefer k within))) ->
+    s_key sA = k -> s_key sB = k -> s_deferred sA = s_deferred sB.
+Proof. exact defer_reattach_commute. Qed.
+
+(* ... which is false for the unconditional trigger of repo 84081f2 (found by C02): S amended an orphan input f and
+   is deferred; another running step declares f static (re-attached, UNCONFIRMED).  Deferred first: the trigger
+   wakes S although f is still unusable; declared first: S stays deferred. *)
+Theorem C10_defer_and_reattachment_order_matters_with_unconditional_trigger :
+  forall c, exists g k r1 r2, DeferInv g /\
+    deferred_of (drunR true false c (r1 ++ r2) g) k = false /\
+    deferred_of (drunR true false c (r2 ++ r1) g) k = true /\
+    unusable_dyn (drunR true false c (r1 ++ r2) g) k = true.
+Proof. exact defer_reattach_order_matters_unconditional. Qed.
+
 Example C10_d39_history :
   parked_b (drun false false d39_sequential g_d39) = true /\ parked_b (drun true false d39_race g_d39) = true /\
   parked_b (drun false true d39_sequential g_d39) = true /\
-  parked_b (drun true true d39_sequential g_d39) = false /\ parked_b (drun true true d39_race g_d39) = false.
+  parked_b (drun true true d39_sequential g_d39) = false /\ parked_b (drun true true d39_race g_d39) = false /\
+  parked_b (drunR true true true d39_sequential g_d39) = false /\ parked_b (drunR true true true d39_race g_d39) = false.
 Proof. repeat split; vm_compute; reflexivity. Qed.
 
 (* Termination of the validation outcome for both shapes of the source: if the step is in a dispatch set again
